@@ -52,6 +52,7 @@ class H:
         self.timeout = 900
         self.mem_gb = 4
         self.stubbed = False
+        self.thorough_only = set()
         self.tolerate = None
         self.doc = ""
         self.quickfeats = 1
@@ -88,7 +89,13 @@ def load_harnesses():
                         continue
                     k, v = mm.group(1), mm.group(2).strip()
                     if k == "prop":
-                        h.props += v.split()
+                        # "C10~" = the harness belongs to C10 only in the thorough tier (keeps quick tiers disjoint-ish)
+                        for tok in v.split():
+                            if tok.endswith("~"):
+                                h.props.append(tok[:-1])
+                                h.thorough_only.add(tok[:-1])
+                            else:
+                                h.props.append(tok)
                     elif k == "tier":
                         h.tier = v
                     elif k == "feat":
